@@ -278,6 +278,38 @@ def sys_spinning_bar_forward():
     return sys_spinning_bar(omega0=100.0)
 
 
+def sys_spinning_bar_coarse():
+    """the joint turns by more than a quarter turn between two stored instants (the integrator's own steps are finer)"""
+    return sys_spinning_bar(omega0=330.0)
+
+
+def sys_shaken_support():
+    """a link hinged to a support with prescribed motion (a Frame that is shaken and rocked): re-assembling at a later time must not move the hinge on the support"""
+    from cardillo import System
+    from cardillo.discrete import RigidBody, Frame
+    from cardillo.constraints import Revolute
+    from cardillo.force_laws import KelvinVoigtElement
+    from cardillo.forces import Force
+    from cardillo.math import Exp_SO3, ax2skew
+
+    system = System()
+    w = 9.0
+    amp = np.array([0.08, 0.05, 0.0])
+    rock = 0.3
+    A = lambda t: Exp_SO3(np.array([0.0, 0.0, rock * np.sin(w * t)]))
+    Om = lambda t: np.array([0.0, 0.0, rock * w * np.cos(w * t)])
+    Omd = lambda t: np.array([0.0, 0.0, -rock * w * w * np.sin(w * t)])
+    support = Frame(r_OP=lambda t: amp * np.sin(w * t), r_OP_t=lambda t: amp * w * np.cos(w * t), r_OP_tt=lambda t: -amp * w * w * np.sin(w * t),
+                    A_IB=A, A_IB_t=lambda t: A(t) @ ax2skew(Om(t)), A_IB_tt=lambda t: A(t) @ (ax2skew(Omd(t)) + ax2skew(Om(t)) @ ax2skew(Om(t))), name="support")
+    r_J = np.array([0.2, 0.1, 0.0])                 # the hinge sits off the support's origin
+    link = RigidBody(1.0, np.diag([0.01, 1 / 12, 1 / 12]), q0=np.concatenate([r_J + np.array([0.5, 0, 0]), [1.0, 0, 0, 0]]),
+                     u0=np.concatenate([amp * w + np.cross([0, 0, rock * w], r_J + np.array([0.5, 0.0, 0.0])), [0.0, 0.0, rock * w]]), name="link")
+    hinge = Revolute(support, link, axis=2, angle0=0.3, r_OJ0=r_J, A_IJ0=np.eye(3), name="hinge")
+    system.add(support, link, hinge, Force(np.array([0, -9.81, 0.0]), link, name="g"), KelvinVoigtElement(hinge, 4.0, 0.05, l_ref=0.0, compliance_form=False, name="spring"))
+    system.assemble()
+    return system
+
+
 def sys_spherical_chain():
     from cardillo import System
     from cardillo.discrete import RigidBody
@@ -361,6 +393,8 @@ SYSTEMS = {
     "double_pendulum_spring": (sys_double_pendulum, ["Rattle", "BackwardEuler", "Moreau", "DualStormerVerlet", "ScipyIVP", "ScipyDAE"]),
     "spinning_bar": (sys_spinning_bar, ["ScipyIVP", "ScipyDAE", "Rattle", "BackwardEuler", "Moreau", "DualStormerVerlet"]),
     "spinning_bar_forward": (sys_spinning_bar_forward, ["ScipyIVP", "Rattle"]),
+    "spinning_bar_coarse_output": (sys_spinning_bar_coarse, ["ScipyIVP"]),
+    "shaken_support": (sys_shaken_support, ["ScipyIVP", "Rattle", "Moreau"]),
     "spherical_chain": (sys_spherical_chain, ["Rattle", "BackwardEuler", "Moreau", "ScipyIVP"]),
     "bouncing_ball": (sys_bouncing_ball, ["Moreau", "Rattle", "BackwardEuler", "DualStormerVerlet"]),
     "two_balls": (sys_two_balls, ["Moreau", "Rattle"]),
